@@ -42,14 +42,14 @@ package jpeg
 //@   props C02 C10
 //@   requires atMarker(jr)
 //@   modifies jr.err, jr.discarded, stream(jr.br)
-//@   ensures [C10] jr.err == nil ==> pos(jr.br) == old(pos(jr.br)) + 2 + int(jr.size)
+//@   ensures [C10 C02] jr.err == nil ==> pos(jr.br) == old(pos(jr.br)) + 2 + int(jr.size)
 //@   ensures [C10] pos(jr.br) >= old(pos(jr.br)) && jr.discarded == old(jr.discarded) + uint32(pos(jr.br) - old(pos(jr.br)))
 
 //@ func (*jpegReader).readSOFMarker
 //@   props C02 C10
 //@   requires atMarker(jr)
 //@   modifies jr.err, jr.discarded, jr.sofHeader, stream(jr.br)
-//@   ensures [C10] jr.err == nil ==> pos(jr.br) == old(pos(jr.br)) + 2 + int(jr.size)
+//@   ensures [C10 C02] jr.err == nil ==> pos(jr.br) == old(pos(jr.br)) + 2 + int(jr.size)
 //@   ensures [C10] pos(jr.br) >= old(pos(jr.br)) && jr.discarded == old(jr.discarded) + uint32(pos(jr.br) - old(pos(jr.br)))
 
 // APP handlers.
@@ -57,21 +57,21 @@ package jpeg
 //@   props C02 C10
 //@   requires atMarker(jr)
 //@   modifies jr.err, jr.discarded, stream(jr.br)
-//@   ensures [C10] jr.err == nil ==> pos(jr.br) == old(pos(jr.br)) + 2 + int(jr.size)
+//@   ensures [C10 C02] jr.err == nil ==> pos(jr.br) == old(pos(jr.br)) + 2 + int(jr.size)
 //@   ensures [C10] pos(jr.br) >= old(pos(jr.br)) && jr.discarded == old(jr.discarded) + uint32(pos(jr.br) - old(pos(jr.br)))
 
 //@ func (*jpegReader).readAPP2
 //@   props C02 C10
 //@   requires atMarker(jr)
 //@   modifies jr.err, jr.discarded, stream(jr.br)
-//@   ensures [C10] jr.err == nil ==> pos(jr.br) == old(pos(jr.br)) + 2 + int(jr.size)
+//@   ensures [C10 C02] jr.err == nil ==> pos(jr.br) == old(pos(jr.br)) + 2 + int(jr.size)
 //@   ensures [C10] pos(jr.br) >= old(pos(jr.br)) && jr.discarded == old(jr.discarded) + uint32(pos(jr.br) - old(pos(jr.br)))
 
 //@ func (*jpegReader).readAPP13
 //@   props C02 C10
 //@   requires atMarker(jr)
 //@   modifies jr.err, jr.discarded, stream(jr.br)
-//@   ensures [C10] jr.err == nil ==> pos(jr.br) == old(pos(jr.br)) + 2 + int(jr.size)
+//@   ensures [C10 C02] jr.err == nil ==> pos(jr.br) == old(pos(jr.br)) + 2 + int(jr.size)
 //@   ensures [C10] pos(jr.br) >= old(pos(jr.br)) && jr.discarded == old(jr.discarded) + uint32(pos(jr.br) - old(pos(jr.br)))
 
 // The Exif callback is handed the scanner's reader positioned at the TIFF header of the APP1 payload (marker 2 bytes +
